@@ -97,7 +97,8 @@ class Builder:
                  ("selfdestruct", 2 if main and not self.in_rep else 0),
                  ("nested", 4 if main and not self.in_rep else 0),
                  # (`...` spreads into varargs efuns; a spread into a local function needs a varargs declaration and is not generated)
-                 ("spreadefun", 2), ("spreadbad", 3),
+                 # (sprintf() refuses to run inside the object_name() master call)
+                 ("spreadefun", 2 if not self.in_safe else 0), ("spreadbad", 3 if not self.in_safe else 0),
                  ("catch", 7), ("raise", 3), ("throw", 2), ("safe", 3 if main and not self.in_safe else 0), ("setcg", 2 if main and self.use_setcg and not self.no_cg else 0),
                  ("install", 2 if main and not self.use_setcg else 0), ("installbad", 2 if main and not self.use_setcg else 0), ("load", 2 if main and not self.in_rep else 0),
                  ("clone", 2 if main else 0),
